@@ -156,14 +156,14 @@ class Stack:
         self.cas[cname] = ca
         return ca
 
-    def listen_ca(self, cname, lname=None):
+    def listen_ca(self, cname, lname=None, slow=0.0):
         lname = lname or cname
-        cb = self._mk_cb(lname)
+        cb = self._mk_cb(lname, slow)
         self.cas[cname].subscribe(cb)
         return cb
 
-    def listen_ecu(self, lname, dev_adr=None):
-        cb = self._mk_cb(lname)
+    def listen_ecu(self, lname, dev_adr=None, slow=0.0):
+        cb = self._mk_cb(lname, slow)
         self.ecu.subscribe(cb, dev_adr)
         return cb
 
@@ -173,10 +173,14 @@ class Stack:
         self.cas[cname].subscribe_request(cb)
         return cb
 
-    def _mk_cb(self, lname):
+    def _mk_cb(self, lname, slow=0.0):
         def cb(priority, pgn, sa, timestamp, data):
             self.deliveries.append((self.world.sim.now, lname, priority, pgn, sa,
                                     bytes(data) if data is not None else None))
+            if slow:
+                # a slow application callback: the receiving context of THIS stack is blocked for a while (further frames for it
+                # queue up in bus order), everything else keeps running
+                sk.FAKE_TIME.sleep(slow)
             if self.rx_hooks:
                 hooks, self.rx_hooks = self.rx_hooks, []
                 for h in hooks:
